@@ -37,7 +37,7 @@ func c11Run(paged bool) {
 	var po *pagedOnly
 	var ss *spyStreamer
 	if paged {
-		po = &pagedOnly{inner: mem, failAt: failAt}
+		po = &pagedOnly{inner: mem, failAt: failAt, chunk: vInt(0, 2)}
 		store = po
 	} else {
 		ss = &spyStreamer{inner: mem, failAt: failAt}
@@ -113,7 +113,7 @@ func c11Run(paged bool) {
 	vAssert(handlerRuns == 0, "handlers-not-invoked")
 }
 
-//verif:entry property=C11 tier=both bounds="paged store: log length n<=N, start index k<=n, batch size b in [-1,N+1], one fault of 5 kinds at position at<=N" cover="nil-complete,err-prefix" N_quick=3 N_thorough=5
+//verif:entry property=C11 tier=both bounds="paged store (pages optionally capped at 1 or 2 events regardless of the limit): log length n<=N, start index k<=n, batch size b in [-1,N+1], one fault of 5 kinds at position at<=N" cover="nil-complete,err-prefix" N_quick=3 N_thorough=5
 func harnessC11Paged() { c11Run(true) }
 
 //verif:entry property=C11 tier=both bounds="streaming memory store: log length n<=N, start index k<=n, one fault of 5 kinds at position at<=N" cover="nil-complete,err-prefix" N_quick=3 N_thorough=6
